@@ -1067,6 +1067,22 @@ class Oracles:
                     if set(got) != want:
                         w.fail({"C10"}, "group/union-of-several-names", f"{names}: {sorted(got)} != {sorted(want)}")
                     w.label("group:union-query")
+            # ... a name given more than once changes nothing
+            if names and not pm.closed:
+                a = names[0]
+                for q in ([a, a], [a] + names[1:2] + [a], names + names):
+                    try:
+                        got = pm.pool.get_group_ids(*q)
+                    except Exception as e:
+                        w.fail({"C10"}, "group/repeated-name-raised", f"{q}: {type(e).__name__}")
+                        break
+                    self.sync_groups(pm)
+                    want = set()
+                    for n in q:
+                        want |= set(pm.groups_live[n].tids)
+                    if set(got) != want:
+                        w.fail({"C10"}, "group/repeated-name-changes-the-answer", f"{q}: {sorted(got)} != {sorted(want)}")
+                        break
             # ... and an unknown name anywhere among known ones (first, last, in between) makes the whole query raise
             if names and not pm.closed:
                 unknown = "no-such-group-%d" % len(pm.reqs)
